@@ -13,5 +13,6 @@ func TestReplay(t *testing.T) {
 		"HarnessEndToEnd":            HarnessEndToEnd,
 		"HarnessManyStreams":         HarnessManyStreams,
 		"HarnessServerWire":          HarnessServerWire,
+		"HarnessUnencodableElement":  HarnessUnencodableElement,
 	})
 }
